@@ -259,16 +259,36 @@ fn case_source(case: &Value, seed: u64, layout: u64) -> Result<String, String> {
     render::render(toks, seed, id, layout)
 }
 
-fn parse_cases(path: &str) -> Vec<Value> {
-    read_lines(path)
-        .iter()
-        .map(|l| {
-            serde_json::from_str(l).unwrap_or_else(|e| {
-                eprintln!("bad case line: {e}");
-                std::process::exit(2)
-            })
-        })
-        .collect()
+/// Runs `f` over the lines of `input` in batches (bounded memory), in order, appending to `output`.
+fn stream(input: &str, output: &str, f: impl Fn(&Value) -> String + Sync) {
+    use std::io::{BufRead, Write};
+    let reader = std::io::BufReader::new(std::fs::File::open(input).unwrap_or_else(|e| {
+        eprintln!("cannot open {input}: {e}");
+        std::process::exit(2)
+    }));
+    let mut out = std::io::BufWriter::new(std::fs::File::create(output).expect("create output file"));
+    let mut batch: Vec<String> = Vec::new();
+    let mut flush = |batch: &mut Vec<String>| {
+        let lines = par_map(batch, |_, l| match serde_json::from_str::<Value>(l) {
+            Ok(case) => f(&case),
+            Err(e) => json!({"toolerror": format!("bad case line: {e}")}).to_string(),
+        });
+        for l in lines {
+            writeln!(out, "{l}").unwrap();
+        }
+        batch.clear();
+    };
+    for line in reader.lines() {
+        let line = line.unwrap();
+        if line.trim().is_empty() {
+            continue;
+        }
+        batch.push(line);
+        if batch.len() >= 24000 {
+            flush(&mut batch);
+        }
+    }
+    flush(&mut batch);
 }
 
 fn strip_same(first: &Value, other: Value) -> Value {
@@ -276,10 +296,9 @@ fn strip_same(first: &Value, other: Value) -> Value {
 }
 
 fn replay(args: &[String]) {
-    let cases = parse_cases(&args[0]);
     let k: u64 = args[2].parse().unwrap();
     let seed: u64 = args[3].parse().unwrap();
-    let lines = par_map(&cases, |_, case| {
+    stream(&args[0], &args[1], |case| {
         let mut out = json!({"id": case["id"]});
         let mut ds = Vec::new();
         let mut als = Vec::new();
@@ -301,13 +320,11 @@ fn replay(args: &[String]) {
         out["a"] = Value::Array(als.into_iter().enumerate().map(|(i, a)| if i == 0 { a } else { strip_same(&a0, a) }).collect());
         out.to_string()
     });
-    write_lines(&args[1], &lines);
 }
 
 fn roundtrip(args: &[String]) {
-    let cases = parse_cases(&args[0]);
     let seed: u64 = args[2].parse().unwrap();
-    let lines = par_map(&cases, |_, case| {
+    stream(&args[0], &args[1], |case| {
         let src = match case_source(case, seed, 0) {
             Ok(s) => s,
             Err(e) => return json!({"id": case["id"], "toolerror": e}).to_string(),
@@ -320,7 +337,6 @@ fn roundtrip(args: &[String]) {
         }
         r.to_string()
     });
-    write_lines(&args[1], &lines);
 }
 
 fn record_one(id: &Value, src: &str) -> Value {
@@ -343,10 +359,9 @@ fn record_one(id: &Value, src: &str) -> Value {
 }
 
 fn record(args: &[String]) {
-    let cases = parse_cases(&args[0]);
     let k: u64 = args[2].parse().unwrap();
     let seed: u64 = args[3].parse().unwrap();
-    let lines = par_map(&cases, |_, case| {
+    stream(&args[0], &args[1], |case| {
         // one random layout per case, never the plain one
         let layout = 1 + (case["id"].as_u64().unwrap_or(0) % k.max(1));
         match case_source(case, seed, layout) {
@@ -358,7 +373,6 @@ fn record(args: &[String]) {
             Err(e) => json!({"id": case["id"], "toolerror": e}).to_string(),
         }
     });
-    write_lines(&args[1], &lines);
 }
 
 fn corpus(args: &[String]) {
